@@ -13,7 +13,7 @@ open PyGql PyGql.Sdl PyGql.SdlSpec
 
 /-! ### `_collect_definitions` succeeds on documents with unique names -/
 
-private theorem any_name_false {α} (name : α → String) (l : List α) (n : String) (h : n ∉ l.map name) :
+theorem any_name_false {α} (name : α → String) (l : List α) (n : String) (h : n ∉ l.map name) :
     l.any (fun x => name x == n) = false := by
   induction l with
   | nil => rfl
@@ -124,13 +124,13 @@ structure ValidNoExt (doc : Doc) (d : SchemaD) : Prop where
 
 private theorem mergeDef_nil (t : TypeDef) : mergeDef [] t = t := rfl
 
-private theorem merged_noext (doc : Doc) (h : typeExts doc = []) : merged doc = typeDefs doc := by
+theorem merged_noext (doc : Doc) (h : typeExts doc = []) : merged doc = typeDefs doc := by
   simp only [merged, h]
   induction typeDefs doc with
   | nil => rfl
   | cons t ts ih => simp [List.map, mergeDef_nil, ih]
 
-private theorem mapM_buildType (defs : List TypeDef) :
+theorem mapM_buildType (defs : List TypeDef) :
     ∀ (ds : List TypeDef) (ts : List TypeD), (∀ t ∈ ds, isDefaultName t.name = false) →
       ds.mapM (buildTypeDef (Env.of defs)) = .ok ts → ds.mapM (buildType (Env.of defs)) = .ok (ts.map some) := by
   intro ds
@@ -155,7 +155,7 @@ private theorem mapM_buildType (defs : List TypeDef) :
         have ha : (Env.of defs).findAdditional x.name = none := rfl
         simp only [buildType, hx, Bool.false_eq_true, if_false, ha, hb, bind, Except.bind, pure, Except.pure, this, List.map_cons]
 
-private theorem filterMap_id_map_some {α} (l : List α) : (l.map some).filterMap id = l := by
+theorem filterMap_id_map_some {α} (l : List α) : (l.map some).filterMap id = l := by
   induction l with
   | nil => rfl
   | cons x xs ih => simp [ih]
@@ -172,7 +172,7 @@ private theorem typeExtensions_nil (live : Live) (doc : Doc) (h : typeExts doc =
     | schemaExt t => simp only [typeExts, List.filterMap_cons] at h; simpa [typeExtensions] using ih h
     | other => simp only [typeExts, List.filterMap_cons] at h; simpa [typeExtensions] using ih h
 
-private theorem declared_parts (doc : Doc) (d : SchemaD) (h : Declared doc = some d) :
+theorem declared_parts (doc : Doc) (d : SchemaD) (h : Declared doc = some d) :
     (merged doc).mapM (buildTypeDef (Env.of (merged doc))) = .ok d.types ∧
     (dirDefs doc).mapM (buildDirective (Env.of (merged doc))) = .ok d.directives ∧
     d = { types := d.types, directives := d.directives, query := d.query, mutation := d.mutation, subscription := d.subscription } := by
@@ -206,7 +206,7 @@ theorem build_exact_noext (doc : Doc) (d : SchemaD) (v : ValidNoExt doc d) : bui
 
 /-! ### independence of the order of definitions (documents without extensions) -/
 
-private theorem find_perm {α} (name : α → String) (n : String) {l₁ l₂ : List α} (hp : l₁.Perm l₂) :
+theorem find_perm {α} (name : α → String) (n : String) {l₁ l₂ : List α} (hp : l₁.Perm l₂) :
     (l₁.map name).Nodup → l₁.find? (fun x => name x == n) = l₂.find? (fun x => name x == n) := by
   induction hp with
   | nil => intro _; rfl
@@ -234,7 +234,7 @@ theorem env_perm {l₁ l₂ : List TypeDef} (hp : l₁.Perm l₂) (hn : (l₁.ma
   funext n
   exact find_perm (·.name) n hp hn
 
-private theorem mapM_perm {α β} (f : α → R β) {l₁ l₂ : List α} (hp : l₁.Perm l₂) :
+theorem mapM_perm {α β} (f : α → R β) {l₁ l₂ : List α} (hp : l₁.Perm l₂) :
     ∀ r₁, l₁.mapM f = .ok r₁ → ∃ r₂, l₂.mapM f = .ok r₂ ∧ r₁.Perm r₂ := by
   induction hp with
   | nil => intro r h; exact ⟨r, h, List.Perm.refl _⟩
@@ -276,8 +276,8 @@ private theorem mapM_perm {α β} (f : α → R β) {l₁ l₂ : List α} (hp : 
     obtain ⟨r₃, h3, p3⟩ := ih2 r₂ h2
     exact ⟨r₃, h3, p2.trans p3⟩
 
-private theorem typeDefs_perm {d₁ d₂ : Doc} (hp : d₁.Perm d₂) : (typeDefs d₁).Perm (typeDefs d₂) := hp.filterMap _
-private theorem dirDefs_perm {d₁ d₂ : Doc} (hp : d₁.Perm d₂) : (dirDefs d₁).Perm (dirDefs d₂) := hp.filterMap _
+theorem typeDefs_perm {d₁ d₂ : Doc} (hp : d₁.Perm d₂) : (typeDefs d₁).Perm (typeDefs d₂) := hp.filterMap _
+theorem dirDefs_perm {d₁ d₂ : Doc} (hp : d₁.Perm d₂) : (dirDefs d₁).Perm (dirDefs d₂) := hp.filterMap _
 
 /-- **build_perm** for documents without extensions: two valid documents that differ only in the ORDER of
     their definitions build schemas with the same content (same types with the same members in the same member
@@ -302,7 +302,7 @@ theorem build_perm_noext (doc₁ doc₂ : Doc) (d₁ d₂ : SchemaD) (v₁ : Val
     cases hr
     exact hperm
 
-private theorem declared_roots (doc : Doc) (d : SchemaD) (h : Declared doc = some d) :
+theorem declared_roots (doc : Doc) (d : SchemaD) (h : Declared doc = some d) :
     (⟨d.query, d.mutation, d.subscription⟩ : Roots) = declaredRoots doc d.types := by
   unfold Declared at h
   simp only [] at h
@@ -312,13 +312,13 @@ private theorem declared_roots (doc : Doc) (d : SchemaD) (h : Declared doc = som
     rfl
   · simp at h
 
-private theorem perm_short {α} {l₁ l₂ : List α} (hp : l₁.Perm l₂) (h : l₁.length ≤ 1) : l₁ = l₂ := by
+theorem perm_short {α} {l₁ l₂ : List α} (hp : l₁.Perm l₂) (h : l₁.length ≤ 1) : l₁ = l₂ := by
   match l₁, l₂, hp with
   | [], l₂, hp => exact (List.perm_nil.mp hp.symm).symm
   | [a], l₂, hp => exact (List.perm_singleton.mp hp.symm).symm
   | _ :: _ :: _, _, _ => simp at h
 
-private theorem any_perm {α} (p : α → Bool) {l₁ l₂ : List α} (hp : l₁.Perm l₂) : l₁.any p = l₂.any p := by
+theorem any_perm {α} (p : α → Bool) {l₁ l₂ : List α} (hp : l₁.Perm l₂) : l₁.any p = l₂.any p := by
   induction hp with
   | nil => rfl
   | cons x _ ih => simp [List.any_cons, ih]
@@ -473,11 +473,9 @@ theorem extend_enum_exact (env : Env) (exts : List TypeDef) (t : TypeD) (hk : t.
   rw [this]
   rfl
 
-/-- C11 with extensions, full statement under the hypothesis that excludes finding S8 (`NoS8`: every member of the
-    document builds to the same thing over the definitions alone and over the merged definitions). NOT proved yet:
-    what is machine-checked is its extension-free case (`build_exact_noext`), the exact merge step for every
-    member kind (`extension_merge_exact`, instance `extend_enum_exact`), exact collection (`collect_ok`,
-    `collect_exact`) and the refutation of the statement without `NoS8` (`build_exact_refuted`). -/
+/-- C11 with extensions, compact form of the statement under a hypothesis that excludes finding S8. PROVED in
+    `Props/C11_merge.lean` as `build_exact_partial` (hypotheses spelled out in `ValidExt`; the member-level NoS8
+    hypothesis there is the weaker `mergedSame`/`directivesSame`), with `build_perm` for definition order. -/
 def BuildExactPartialStatement : Prop :=
   ∀ (doc : Doc) (d : SchemaD), SdlValid doc → Declared doc = some d →
     (∀ a : InputValDef, buildArgument (Env.of (typeDefs doc)) a = buildArgument (Env.of (merged doc)) a) →
